@@ -164,6 +164,9 @@ func c18Case(c *Ctx, k cliCfg) {
 	c.Count("invocations", 1)
 	c.Nontrivial(1)
 	after := snapshotDir(dir)
+	if k.prog == 2 && k.fileset == 1 && k.stdout == 1 {
+		c.Sample(map[string]any{"argv": args, "exit": exit, "stdout": trunc(so.String(), 160), "directory_after": fmtDir(after)})
+	}
 	rec := map[string]any{"kind": "cli", "args": args, "exit": exit, "stdout": trunc(so.String(), 400), "stderr": trunc(se.String(), 400)}
 	desc := "vore " + strings.Join(args, " ")
 	invalid := k.stdout == 3 || k.mode == 4 || k.prog == 3
